@@ -24,7 +24,7 @@ where
     // states
     // (current node, anchor_id) tuple
     doc_stack: Vec<(Node, usize)>,
-    key_stack: Vec<Node>,
+    key_stack: Vec<Option<Node>>,
     anchor_map: BTreeMap<usize, Node>,
     marker: PhantomData<&'input u32>,
     /// See [`Self::early_parse()`]
@@ -221,7 +221,7 @@ where
                     Node::from_bare_yaml(Yaml::Mapping(Mapping::new())).with_span(span),
                     aid,
                 ));
-                self.key_stack.push(Node::from_bare_yaml(Yaml::BadValue));
+                self.key_stack.push(None);
             }
             Event::MappingEnd => {
                 self.key_stack.pop().unwrap();
@@ -262,13 +262,13 @@ where
                 parent_node.sequence_mut().push(node.0);
             } else if parent_node.is_mapping() {
                 let cur_key = self.key_stack.last_mut().unwrap();
-                if cur_key.is_badvalue() {
-                    // current node is a key
-                    *cur_key = node.0;
-                } else {
+                if let Some(key) = cur_key.take() {
                     // current node is a value
                     let hash = parent_node.mapping_mut();
-                    hash.insert(cur_key.take().into(), node.0);
+                    hash.insert(key.into(), node.0);
+                } else {
+                    // current node is a key
+                    *cur_key = Some(node.0);
                 }
             }
         } else {
